@@ -92,6 +92,18 @@ StepBlock(e) ==
         ELSE IF ~(b.ts <= e.now + MaxFuture) THEN "C05:timestamp_too_far_in_future"
         ELSE IF ~b.evok THEN "C05:evidence_not_as_recomputed"
         ELSE ""
+      \* C01 / C02 on the delivery path: a relayed block that entered the chain state spends only what is there and authorised, and conserves value
+      c12 ==
+        IF Focus \cap {"C01", "C02"} = {} \/ ~relay \/ ~accepted \/ b.parent \notin pre \/ b.height <= Horizon THEN ""
+        ELSE LET pu == utxo[b.parent] IN
+             IF "C01" \in Focus /\ ~P_SpendsExist(b, pu) THEN "C01:spend_of_missing_or_spent_output"
+             ELSE IF "C01" \in Focus /\ ~P_NoDoubleSpend(b) THEN "C01:output_spent_twice_in_block"
+             ELSE IF "C01" \in Focus /\ ~P_NoSameBlockSpend(b) THEN "C01:spend_of_output_created_in_same_block"
+             ELSE IF "C01" \in Focus /\ ~P_Authorised(b, pu) THEN "C01:spend_not_authorised_by_owner_key"
+             ELSE IF "C02" \in Focus /\ ~P_OneReward(b) THEN "C02:reward_transaction_malformed"
+             ELSE IF "C02" \in Focus /\ ~P_TxValues(b, pu) THEN "C02:transaction_values_out_of_range_or_overspent"
+             ELSE IF "C02" \in Focus /\ ~P_Reward(b, pu) THEN "C02:reward_exceeds_subsidy_plus_fees"
+             ELSE ""
   IN \* the spec state follows the *implementation's* outcome where that outcome is explainable
      /\ UNCHANGED << miner, tid >>
      /\ txd' = txd
@@ -124,7 +136,7 @@ StepBlock(e) ==
                      ELSE IF p.head # FirstSeenBest(blocks', order') THEN "C04:head_not_first_seen_of_greatest_height"
                      ELSE IF SetOf(p.tips) # Childless(blocks') THEN "C04:tips_not_exactly_childless_blocks"
                      ELSE ""
-               c == IF c9 # "" THEN c9 ELSE IF c5 # "" THEN c5 ELSE IF c4 # "" THEN c4 ELSE c13
+               c == IF c9 # "" THEN c9 ELSE IF c12 # "" THEN c12 ELSE IF c5 # "" THEN c5 ELSE IF c4 # "" THEN c4 ELSE c13
            IN /\ DriftIf((br \in {"accept", "accept_unvalidated"}) # accepted, "block accepted/refused differs from Node!Branch = " \o br)
               /\ DriftIf(RowIds(p) # S!Ids(chainT'), "store rows differ from Node/Store model")
               /\ DriftIf(SetOf(p.buffer) # {buffer'[k].id : k \in 1..Len(buffer')}, "write buffer differs from Node/Store model")
